@@ -26,6 +26,8 @@ func init() {
 			"(environmental, noted in DESIGN.md); timing of the spam loop.",
 		Run: runC13,
 		Mutants: []Mutant{
+			{Name: "arp-probes-dropped", File: "internal/layer2/arp.go",
+				Old: "\t// Ignore ARP requests that the announcer tells us to ignore.\n", New: "\tif pkt.SenderIP.IsUnspecified() {\n\t\treturn dropReasonError\n\t}\n\t// Ignore ARP requests that the announcer tells us to ignore.\n", Expect: "no-other-drop"},
 			{Name: "entry-dropped-by-service-count", File: "internal/layer2/announcer.go",
 				Old: "\t\tif len(advs) == 1 {\n\t\t\tdelete(a.ips, name)", New: "\t\tif len(a.ips) == 1 {\n\t\t\tdelete(a.ips, name)", Expect: "entry-dropped-only-with-last-advertisement"},
 			{Name: "group-counter-read-by-address", File: "internal/layer2/ndp.go",
@@ -99,6 +101,17 @@ func c13Reply(p *chk.Prog, r *chk.Report) {
 			x.Check("arp:reply:only-requests", s.Pos(), g.Dominated(s, g.GPat(false, "PKT.Operation != arp.OperationRequest", chk.H("PKT", same))), "", "ARP packets that are not requests (e.g. replies) can be answered")
 			x.Check("arp:reply:addressed-to-us", s.Pos(), g.Dominated(s, g.GPat(false, "!bytes.Equal(ETH.Destination, ethernet.Broadcast) && !bytes.Equal(ETH.Destination, RECV.hardwareAddr)")), "", "requests addressed neither to broadcast nor to this node can be answered")
 			x.Check("arp:reply:announcer-verdict", s.Pos(), g.Dominated(s, g.GPat(false, "V != dropReasonNone", chk.H("V", verdict))), "", "a request can be answered although the announcer did not say dropReasonNone for that address on this interface")
+			// the converse: a request is left unanswered only for one of those three reasons or a failed read - whoever
+			// asks (an address probe with sender 0.0.0.0, a gratuitous request, ...) gets the owner's answer
+			allowed := chk.GAnyOf(
+				g.GErrNil(false, "RECV.conn.Read()", chk.H("RECV", isRecv(f))),
+				g.GPat(true, "PKT.Operation != arp.OperationRequest", chk.H("PKT", same)),
+				g.GPat(true, "!bytes.Equal(ETH.Destination, ethernet.Broadcast) && !bytes.Equal(ETH.Destination, RECV.hardwareAddr)"),
+				g.GPat(true, "V != dropReasonNone", chk.H("V", verdict)))
+			w := (&chk.Walk{G: g, Stop: func(n ast.Node) bool { return n == s.Top },
+				Hit: func(n ast.Node) bool { _, isRet := n.(*ast.ReturnStmt); return isRet },
+				Cut: func(b *cfgBlock, k int) bool { return g.EdgeImplies(b, k, allowed) }}).Run()
+			x.Check("arp:no-other-drop", posOf(w, f), !w.Found, "", "a well-formed request for an address the announcer answers for can be dropped for a further reason (a filter on the sender, say): address probes and duplicate-address detection of the clients go unanswered, and a second owner of the address is not noticed")
 		}
 	}
 	n := need(x, p, "internal/layer2", "ndpResponder", "processRequest")
